@@ -25,65 +25,68 @@ struct Target {
     deps: &'static [&'static str],                  // other targets this one needs
     imports: &'static str,                          // further modules the generated file needs
     ret_muts: bool,                                 // return the final value of the `&mut Vec` parameters with the result
+    fuel: &'static str,                             // gallina term bounding the iterations of its `while` loops ("" = none allowed)
 }
 
 const TARGETS: &[Target] = &[
     Target { name: "side_partial_cmp", file: "src/bounds/side.rs", impl_trait: Some("PartialOrd"), impl_self: Some("Side"),
-             func: "partial_cmp", calls: &[], deps: &[], imports: "", ret_muts: false },
+             func: "partial_cmp", calls: &[], deps: &[], imports: "", ret_muts: false, fuel: "" },
     Target { name: "ub_partial_cmp", file: "src/bounds/userbounds.rs", impl_trait: Some("PartialOrd"), impl_self: Some("UserBounds"),
-             func: "partial_cmp", calls: &[("partial_cmp", "gen_side_partial_cmp")], deps: &["side_partial_cmp"], imports: "", ret_muts: false },
+             func: "partial_cmp", calls: &[("partial_cmp", "gen_side_partial_cmp")], deps: &["side_partial_cmp"], imports: "", ret_muts: false, fuel: "" },
     Target { name: "ub_matches", file: "src/bounds/userbounds.rs", impl_trait: Some("UserBoundsTrait"), impl_self: Some("UserBounds"),
-             func: "matches", calls: &[], deps: &[], imports: "", ret_muts: false },
+             func: "matches", calls: &[], deps: &[], imports: "", ret_muts: false, fuel: "" },
     Target { name: "ub_try_into_range", file: "src/bounds/userbounds.rs", impl_trait: Some("UserBoundsTrait"), impl_self: Some("UserBounds"),
-             func: "try_into_range", calls: &[], deps: &[], imports: "", ret_muts: false },
+             func: "try_into_range", calls: &[], deps: &[], imports: "", ret_muts: false, fuel: "" },
     Target { name: "complement_std_range", file: "src/bounds/userbounds.rs", impl_trait: None, impl_self: None,
-             func: "complement_std_range", calls: &[], deps: &[], imports: "", ret_muts: false },
+             func: "complement_std_range", calls: &[], deps: &[], imports: "", ret_muts: false, fuel: "" },
     Target { name: "ub_new", file: "src/bounds/userbounds.rs", impl_trait: Some("UserBoundsTrait"), impl_self: Some("UserBounds"),
-             func: "new", calls: &[], deps: &[], imports: "", ret_muts: false },
+             func: "new", calls: &[], deps: &[], imports: "", ret_muts: false, fuel: "" },
     Target { name: "ub_from_range", file: "src/bounds/userbounds.rs", impl_trait: Some("From"), impl_self: Some("UserBounds"),
-             func: "from", calls: &[("UserBounds::new", "gen_ub_new")], deps: &["ub_new"], imports: "", ret_muts: false },
+             func: "from", calls: &[("UserBounds::new", "gen_ub_new")], deps: &["ub_new"], imports: "", ret_muts: false, fuel: "" },
     Target { name: "ub_unpack", file: "src/bounds/userbounds.rs", impl_trait: Some("UserBoundsTrait"), impl_self: Some("UserBounds"),
-             func: "unpack", calls: &[("UserBounds::new", "gen_ub_new"), ("try_into_range", "gen_ub_try_into_range")], deps: &["ub_new", "ub_try_into_range"], imports: "", ret_muts: false },
+             func: "unpack", calls: &[("UserBounds::new", "gen_ub_new"), ("try_into_range", "gen_ub_try_into_range")], deps: &["ub_new", "ub_try_into_range"], imports: "", ret_muts: false, fuel: "" },
     Target { name: "ub_complement", file: "src/bounds/userbounds.rs", impl_trait: Some("UserBoundsTrait"), impl_self: Some("UserBounds"),
              func: "complement", calls: &[("try_into_range", "gen_ub_try_into_range"), ("complement_std_range", "gen_complement_std_range"), ("into", "gen_ub_from_range")],
-             deps: &["ub_try_into_range", "complement_std_range", "ub_from_range"], imports: "", ret_muts: false },
+             deps: &["ub_try_into_range", "complement_std_range", "ub_from_range"], imports: "", ret_muts: false, fuel: "" },
     Target { name: "ubl_bounds_only", file: "src/bounds/userboundslist.rs", impl_trait: None, impl_self: Some("UserBoundsList"),
-             func: "get_userbounds_only", calls: &[], deps: &[], imports: "", ret_muts: false },
+             func: "get_userbounds_only", calls: &[], deps: &[], imports: "", ret_muts: false, fuel: "" },
     Target { name: "ubl_is_sortable", file: "src/bounds/userboundslist.rs", impl_trait: None, impl_self: Some("UserBoundsList"),
-             func: "is_sortable", calls: &[("get_userbounds_only", "gen_ubl_bounds_only")], deps: &["ubl_bounds_only"], imports: "", ret_muts: false },
+             func: "is_sortable", calls: &[("get_userbounds_only", "gen_ubl_bounds_only")], deps: &["ubl_bounds_only"], imports: "", ret_muts: false, fuel: "" },
     Target { name: "ubl_is_sorted", file: "src/bounds/userboundslist.rs", impl_trait: None, impl_self: Some("UserBoundsList"),
-             func: "is_sorted", calls: &[("get_userbounds_only", "gen_ubl_bounds_only"), ("<=UserBounds", "gen_ub_partial_cmp")], deps: &["ubl_bounds_only", "ub_partial_cmp"], imports: "", ret_muts: false },
+             func: "is_sorted", calls: &[("get_userbounds_only", "gen_ubl_bounds_only"), ("<=UserBounds", "gen_ub_partial_cmp")], deps: &["ubl_bounds_only", "ub_partial_cmp"], imports: "", ret_muts: false, fuel: "" },
     Target { name: "ubl_has_negative_indices", file: "src/bounds/userboundslist.rs", impl_trait: None, impl_self: Some("UserBoundsList"),
-             func: "has_negative_indices", calls: &[("get_userbounds_only", "gen_ubl_bounds_only")], deps: &["ubl_bounds_only"], imports: "", ret_muts: false },
+             func: "has_negative_indices", calls: &[("get_userbounds_only", "gen_ubl_bounds_only")], deps: &["ubl_bounds_only"], imports: "", ret_muts: false, fuel: "" },
     Target { name: "ubl_is_forward_only", file: "src/bounds/userboundslist.rs", impl_trait: None, impl_self: Some("UserBoundsList"),
              func: "is_forward_only", calls: &[("is_sortable", "gen_ubl_is_sortable"), ("is_sorted", "gen_ubl_is_sorted"), ("has_negative_indices", "gen_ubl_has_negative_indices")],
-             deps: &["ubl_is_sortable", "ubl_is_sorted", "ubl_has_negative_indices"], imports: "", ret_muts: false },
+             deps: &["ubl_is_sortable", "ubl_is_sorted", "ubl_has_negative_indices"], imports: "", ret_muts: false, fuel: "" },
     Target { name: "side_from_str", file: "src/bounds/side.rs", impl_trait: Some("FromStr"), impl_self: Some("Side"),
-             func: "from_str", calls: &[], deps: &[], imports: "Model.BoundsParse Tie.RsStr", ret_muts: false },
+             func: "from_str", calls: &[], deps: &[], imports: "Model.BoundsParse Tie.RsStr", ret_muts: false, fuel: "" },
     Target { name: "ub_from_str", file: "src/bounds/userbounds.rs", impl_trait: Some("FromStr"), impl_self: Some("UserBounds"),
              func: "from_str", calls: &[("Side::from_str", "gen_side_from_str"), ("UserBounds::new", "gen_ub_new")], deps: &["side_from_str", "ub_new"],
-             imports: "Model.BoundsParse Tie.RsStr", ret_muts: false },
+             imports: "Model.BoundsParse Tie.RsStr", ret_muts: false, fuel: "" },
     Target { name: "ubl_unpack", file: "src/bounds/userboundslist.rs", impl_trait: None, impl_self: Some("UserBoundsList"),
-             func: "unpack", calls: &[("unpack", "gen_ub_unpack"), ("into", "model_from_vec")], deps: &["ub_unpack"], imports: "Tie.RsList", ret_muts: false },
+             func: "unpack", calls: &[("unpack", "gen_ub_unpack"), ("into", "model_from_vec")], deps: &["ub_unpack"], imports: "Tie.RsList", ret_muts: false, fuel: "" },
     Target { name: "ubl_complement", file: "src/bounds/userboundslist.rs", impl_trait: None, impl_self: Some("UserBoundsList"),
-             func: "complement", calls: &[("complement", "gen_ub_complement"), ("into", "model_from_vec")], deps: &["ub_complement"], imports: "Tie.RsList", ret_muts: false },
+             func: "complement", calls: &[("complement", "gen_ub_complement"), ("into", "model_from_vec")], deps: &["ub_complement"], imports: "Tie.RsList", ret_muts: false, fuel: "" },
     Target { name: "cut_bytes", file: "src/cut_bytes.rs", impl_trait: None, impl_self: None,
              func: "cut_bytes", calls: &[("try_into_range", "gen_ub_try_into_range")], deps: &["ub_try_into_range"],
-             imports: "Model.Scan Model.Regex Model.Opt Tie.RsOpt Tie.RsStr Tie.RsList", ret_muts: false },
+             imports: "Model.Scan Model.Regex Model.Opt Tie.RsOpt Tie.RsStr Tie.RsList", ret_muts: false, fuel: "" },
     Target { name: "fast_output_parts", file: "src/fast_lane.rs", impl_trait: None, impl_self: None,
              func: "output_parts", calls: &[("try_into_range", "gen_ub_try_into_range")], deps: &["ub_try_into_range"],
-             imports: "Model.Scan Model.Regex Model.Opt Tie.RsOpt Tie.RsStr Tie.RsList", ret_muts: false },
+             imports: "Model.Scan Model.Regex Model.Opt Tie.RsOpt Tie.RsStr Tie.RsList", ret_muts: false, fuel: "" },
     Target { name: "fast_cut_record", file: "src/fast_lane.rs", impl_trait: None, impl_self: None,
              func: "cut_str_fast_lane", calls: &[("output_parts", "gen_fast_output_parts"), ("trim", "model_trim")], deps: &["fast_output_parts"],
-             imports: "Model.Scan Model.Regex Model.Opt Tie.RsOpt Tie.RsStr Tie.RsList", ret_muts: false },
+             imports: "Model.Scan Model.Regex Model.Opt Tie.RsOpt Tie.RsStr Tie.RsList", ret_muts: false, fuel: "" },
     Target { name: "fill_fields", file: "src/cut_str.rs", impl_trait: None, impl_self: None,
-             func: "fill_with_fields_locations", calls: &[], deps: &[], imports: "Model.Scan Tie.RsStr Tie.RsScan", ret_muts: true },
+             func: "fill_with_fields_locations", calls: &[], deps: &[], imports: "Model.Scan Tie.RsStr Tie.RsScan", ret_muts: true, fuel: "" },
     Target { name: "compress_delimiter", file: "src/cut_str.rs", impl_trait: None, impl_self: None,
-             func: "compress_delimiter", calls: &[], deps: &[], imports: "Model.Scan Tie.RsStr Tie.RsScan", ret_muts: true },
+             func: "compress_delimiter", calls: &[], deps: &[], imports: "Model.Scan Tie.RsStr Tie.RsScan", ret_muts: true, fuel: "" },
+    Target { name: "trim", file: "src/cut_str.rs", impl_trait: None, impl_self: None,
+             func: "trim", calls: &[], deps: &[], imports: "Model.Scan Tie.RsStr Tie.RsScan", ret_muts: false, fuel: "(S (length buffer))" },
     Target { name: "fast_try_from", file: "src/fast_lane.rs", impl_trait: Some("TryFrom"), impl_self: Some("FastOpt"),
-             func: "try_from", calls: &[], deps: &[], imports: "Model.Scan Model.Regex Model.Opt Tie.RsOpt", ret_muts: false },
+             func: "try_from", calls: &[], deps: &[], imports: "Model.Scan Model.Regex Model.Opt Tie.RsOpt", ret_muts: false, fuel: "" },
     Target { name: "stream_try_from", file: "src/stream.rs", impl_trait: Some("TryFrom"), impl_self: Some("StreamOpt"),
-             func: "try_from", calls: &[("ForwardBounds::try_from", "model_forward_try_from")], deps: &[], imports: "Model.Scan Model.Regex Model.Opt Model.Stream Tie.RsOpt", ret_muts: false },
+             func: "try_from", calls: &[("ForwardBounds::try_from", "model_forward_try_from")], deps: &[], imports: "Model.Scan Model.Regex Model.Opt Model.Stream Tie.RsOpt", ret_muts: false, fuel: "" },
 ];
 
 #[derive(Clone, PartialEq, Debug)]
@@ -110,6 +113,7 @@ struct Cx {
     writers: Vec<String>,
     /// the state tuple of the enclosing `for` loops, for `break`
     loop_state: Vec<String>,
+    fuel: String,
     /// what `return e` means here: the function's result, a loop's `Break`, a closure's value
     retk_stack: Vec<String>,
 }
@@ -134,6 +138,9 @@ fn unit_ctor(p: &str) -> Option<&'static str> {
         "Ordering::Less" => "Lt",
         "Ordering::Equal" => "Eq",
         "Ordering::Greater" => "Gt",
+        "Trim::Left" => "TLeft",
+        "Trim::Right" => "TRight",
+        "Trim::Both" => "TBoth",
         "BoundsType::Fields" => "BFields",
         "BoundsType::Bytes" => "BBytes",
         "BoundsType::Characters" => "BChars",
@@ -227,6 +234,7 @@ fn ty_of_type(t: &Type) -> (String, Ty) {
                 "UserBoundsList" => ("ublist".into(), Ty::Other),
                 "Opt" => ("opt".into(), Ty::OptRec),
                 "FastOpt" => ("gfopt".into(), Ty::FastRec),
+                "Trim" => ("trimk".into(), Ty::Other),
                 "u8" => ("byte".into(), Ty::Byte),
                 "str" | "String" => ("bytes".into(), Ty::Str),
                 "BoundOrFiller" => ("bof".into(), Ty::Other),
@@ -292,6 +300,7 @@ impl Cx {
                 "len" => Ty::Usize,
                 "split_once" => Ty::Opt(Box::new(Ty::Pair(Box::new(Ty::Str), Box::new(Ty::Str)))),
                 "find_iter" => Ty::List(Box::new(Ty::Usize)),
+                "starts_with" | "ends_with" => Ty::Bool,
                 "find" => Ty::Opt(Box::new(Ty::Usize)),
                 "is_empty" => Ty::Bool,
                 "into" | "or_else" => self.ty(&m.receiver),
@@ -317,8 +326,8 @@ impl Cx {
         // literals adapt to the other operand
         let lit = |e: &Expr| matches!(e, Expr::Lit(ExprLit { lit: Lit::Int(i), .. }) if i.suffix().is_empty());
         let (ta, tb) = (self.ty(a), self.ty(b));
-        if lit(a) && !lit(b) { return tb; }
-        if lit(b) && !lit(a) { return ta; }
+        if lit(a) && !lit(b) { return if tb == Ty::Other { Ty::I32 } else { tb }; }
+        if lit(b) && !lit(a) { return if ta == Ty::Other { Ty::I32 } else { ta }; }
         if ta == Ty::Other { tb } else { ta }
     }
 
@@ -399,6 +408,8 @@ impl Cx {
                     ("len", 0) => format!("(Z.of_nat (length {}))", recv),
                     ("is_empty", 0) => format!("(match {} with [] => true | _ => false end)", recv),
                     ("find_iter", 1) => format!("(find_iter_z {} {})", args[0], recv),
+                    ("starts_with", 1) => format!("(starts_with {} {})", args[0], recv),
+                    ("ends_with", 1) => format!("(ends_with {} {})", args[0], recv),
                     ("as_slice", 0) => recv,
                     ("split_once", 1) => format!("(str_split_once {} {})", args[0], recv),
                     ("find", 1) => format!("(str_find {} {})", args[0], recv),
@@ -490,7 +501,7 @@ impl Cx {
                     if irr { "true".to_string() } else { format!("(match {} with {} => true | _ => false end)", ev, ps) }
                 } else { return Ok(None); }
             }
-            Expr::If(_) | Expr::Match(_) | Expr::Block(_) | Expr::Return(_) | Expr::Try(_) | Expr::Assign(_) | Expr::ForLoop(_) | Expr::Closure(_) | Expr::Index(_) | Expr::Break(_) => return Ok(None),
+            Expr::If(_) | Expr::Match(_) | Expr::Block(_) | Expr::Return(_) | Expr::Try(_) | Expr::Assign(_) | Expr::ForLoop(_) | Expr::Closure(_) | Expr::Index(_) | Expr::Break(_) | Expr::While(_) => return Ok(None),
             other => return Err(format!("expression kind at line {}", other.span().start().line)),
         }))
     }
@@ -669,6 +680,26 @@ impl Cx {
                 let cond = self.tr(&i.cond, &format!("(fun {} : bool => (if {} then {} else {}))", c, c, th, el))?;
                 Ok(Self::wrap(&jn, cond))
             }
+            Expr::While(w) => {
+                // while COND { BODY }: the mutable variables are the state; bounded by the target's fuel term
+                if self.fuel.is_empty() { return Err("while loop in a function without a fuel term".into()); }
+                if matches!(&*w.cond, Expr::Let(_)) { return Err("while let".into()); }
+                let st_pat = self.muts_pat(); let st_tup = self.muts_tuple();
+                let outer_ret = self.retk();
+                let cond = self.tr(&w.cond, "(fun c => Ret c)")?;
+                let saved_ret_ty = std::mem::replace(&mut self.ret_ty, "_".to_string()); self.retk_stack.push("(fun x => Ret (Break x))".into());
+                self.loop_state.push(st_tup.clone());
+                let mark = self.env.len(); let mmark = self.muts.len();
+                let body = self.stmts(&w.body.stmts, &format!("(fun _ => Ret (Next {}))", st_tup));
+                self.env.truncate(mark); self.muts.truncate(mmark);
+                self.loop_state.pop();
+                self.retk_stack.pop(); self.ret_ty = saved_ret_ty;
+                let body = body?;
+                let (r, v) = (self.fresh("r"), self.fresh("v"));
+                let sp = st_pat.trim_start_matches('\'');
+                Ok(format!("(bind (whileM {} (fun {} => {}) (fun {} => {}) {}) (fun {} => match {} with Next {} => ({} tt) | Stop {} => ({} tt) | Break {} => ({} {}) end))",
+                           self.fuel, st_pat, cond, st_pat, body, st_tup, r, r, sp, k, sp, k, v, outer_ret, v))
+            }
             Expr::Break(b) => {
                 if b.label.is_some() || b.expr.is_some() { return Err("labelled break".into()); }
                 let st = self.loop_state.last().cloned().ok_or("break outside a for loop")?;
@@ -677,7 +708,7 @@ impl Cx {
             Expr::Binary(b) if matches!(b.op, BinOp::AddAssign(_) | BinOp::SubAssign(_)) => {
                 let name = match &*b.left { Expr::Path(p) => path_str(&p.path), _ => return Err("compound assignment to something that is not a variable".into()) };
                 if !self.muts.contains(&name) { return Err(format!("`{}` is not a `let mut`", name)); }
-                let pre = match self.ty(&b.left) { Ty::Usize => "usize", _ => "i32" };
+                let pre = match self.int_ty(&b.left, &b.right) { Ty::Usize => "usize", _ => "i32" };
                 let opn = if matches!(b.op, BinOp::AddAssign(_)) { "add" } else { "sub" };
                 let (y, v) = (self.fresh("t"), self.fresh("v"));
                 let c = self.coqname(&name);
@@ -868,6 +899,11 @@ impl Cx {
                 self.tr(inner, &format!("(fun {} => (bind (usize_to_i32 {}) {}))", x, x, k))
             }
             Expr::MethodCall(m) if m.args.is_empty() && ["clone", "into_iter", "iter", "as_bytes", "as_ref", "to_owned", "as_deref"].contains(&m.method.to_string().as_str()) => self.tr(&m.receiver, k),
+            Expr::MethodCall(m) if m.args.len() == 1 && (m.method == "starts_with" || m.method == "ends_with") => {
+                let arg = self.pure(&m.args[0])?.ok_or("starts_with/ends_with with an effectful argument")?;
+                let x = self.fresh("t");
+                self.tr(&m.receiver, &format!("(fun {} => ({} ({} {} {})))", x, k, m.method, arg, x))
+            }
             Expr::MethodCall(m) if m.args.is_empty() && (m.method == "len" || m.method == "first") => {
                 let x = self.fresh("t");
                 let body = if m.method == "len" { format!("(Z.of_nat (length {}))", x) } else { format!("(hd_error {})", x) };
@@ -1003,7 +1039,10 @@ impl Cx {
             Stmt::Local(l) => {
                 let init = l.init.as_ref().ok_or("let without a value")?;
                 if init.diverge.is_some() { return Err("let-else".into()); }
-                let hint = match &l.pat { Pat::Type(_) => Ty::Other, _ => self.ty(&init.expr) };
+                let hint = match &l.pat {
+                    Pat::Type(_) => Ty::Other,
+                    Pat::Ident(pi) if pi.mutability.is_some() && matches!(&*init.expr, Expr::Lit(ExprLit { lit: Lit::Int(i), .. }) if i.suffix().is_empty()) => Ty::Other,
+                    _ => self.ty(&init.expr) };
                 let mark = self.env.len();
                 self.tuple_hint = vec![];
                 // `let mut s = s;` re-binds a name to its own value: harmless
@@ -1057,6 +1096,7 @@ fn impl_iter_item(t: &Type) -> Option<&Type> {
 
 fn ret_type(t: &Type) -> Option<String> {
     if let Some(item) = impl_iter_item(t) { return Some(format!("(list {})", ret_type(item)?)); }
+    if let Type::Slice(sl) = t { if matches!(&*sl.elem, Type::Path(p) if path_str(&p.path) == "u8") { return Some("bytes".into()); } }
     if let Type::Tuple(tt) = t { if tt.elems.is_empty() { return Some("unit".into()); } }
     match t {
         Type::Reference(r) => ret_type(&r.elem),
@@ -1160,7 +1200,7 @@ fn find_fn<'a>(file: &'a File, t: &Target) -> Option<(&'a Signature, &'a Block, 
 fn translate(t: &Target, sig: &Signature, block: &Block, ret_tys: &HashMap<String, Ty>) -> R<(String, Ty)> {
     let mut cx = Cx { env: vec![], fresh: 0, calls: t.calls.iter().map(|(a, b)| (a.to_string(), b.to_string())).collect(),
                       call_ty: t.calls.iter().filter_map(|(a, b)| ret_tys.get(*b).map(|ty| (a.to_string(), ty.clone()))).collect(),
-                      renames: vec![], tuple_hint: vec![], ret_ty: String::new(), inline_k: false, muts: vec![], rebind_ok: false, writers: vec![], loop_state: vec![], retk_stack: vec![] };
+                      renames: vec![], tuple_hint: vec![], ret_ty: String::new(), inline_k: false, muts: vec![], rebind_ok: false, writers: vec![], loop_state: vec![], fuel: t.fuel.to_string(), retk_stack: vec![] };
     cx.inline_k = quote::ToTokens::to_token_stream(block).to_string().contains("let mut ");
     let self_coq = match t.impl_self { Some("Side") => ("side", Ty::Side), Some("UserBounds") => ("ubound", Ty::UB), Some("UserBoundsList") => ("ublist", Ty::Other), Some("FastOpt") => ("gfopt", Ty::Other), Some("StreamOpt") => ("gsopt", Ty::Other), _ => ("UNKNOWN", Ty::Other) };
     let mut rty = Ty::Other;
